@@ -292,7 +292,7 @@ pub fn drive(args: &[String]) {
     let out = arg_val(args, "--out").expect("--out");
     let start = arg_num(args, "--start-case", 0) as usize;
     let append = arg_num(args, "--append", 0) == 1;
-    let mut w = TraceWriter::open(out, append, 3000);
+    let mut w = TraceWriter::open(out, append, 15_000);
     let noix = json!({"f": 0, "p": []});
     let nocard = json!({"lbl": 0, "cls": "leaf", "ch": []});
     for c in start..cases {
